@@ -235,7 +235,7 @@ pub fn large_histories(seed: u64, n: usize, with_crash: bool) -> RunOut {
     let mut c = Ctx { sim: Sim::new(), out: RunOut { ops: vec![], outs: vec![], stats: BTreeMap::new(), failures: vec![], samples: vec![] }, seen: HashSet::new(), hist_digest: String::new() };
     for hi in 0..n {
         c.run(format!("new W {SEED_HEX}"));
-        let targets: Vec<u64> = match hi % 4 { 0 => vec![9000], 1 => vec![8190, 8200, 32760, 32775], 2 => vec![33000, 66000], _ => vec![r.range(8000, 9000), r.range(32000, 34000), r.range(65000, 70000)] };
+        let targets: Vec<u64> = match hi % 4 { 0 => vec![9000], 1 => vec![8190, 8200, 32760, 32790], 2 => vec![33000, 66000], _ => vec![r.range(8000, 9000), r.range(32000, 34000), r.range(65000, 70000)] };
         for t in targets {
             let len = c.sim.h["W"].oracle.len;
             if t > len { c.run(format!("fill W {} {}", t - len, r.below(200))); }
@@ -255,6 +255,18 @@ pub fn large_histories(seed: u64, n: usize, with_crash: bool) -> RunOut {
                 if with_crash { let j = c.sim.h["W"].last_journal.len(); for k in 0..=j { c.run(format!("crash W {k} 0")); } }
                 if r.chance(1, 2) { c.run("reopen W".into()); }
                 c.run("scan W".into());
+            }
+            // clears that start exactly at a page boundary, and a second one a little further right: the search for the
+            // held neighbour on the left crosses into the previous page; the blocks on both sides must keep their bytes
+            let len = c.sim.h["W"].oracle.len;
+            for pb in [32768u64, 65536] {
+                if pb + 12 < len {
+                    c.run(format!("clear W {pb} {}", pb + 2));
+                    c.run("get W 1".into()); c.run(format!("get W {}", pb - 1)); c.run(format!("get W {}", pb + 2));
+                    c.run(format!("clear W {} {}", pb + 4, pb + 6));
+                    c.run(format!("get W {}", pb + 3)); c.run(format!("get W {}", pb - 1)); c.run(format!("get W {}", pb / 2));
+                    *c.out.stats.entry("page_boundary_clears".into()).or_insert(0) += 1;
+                }
             }
             c.run(format!("append W {}", hex(&gen_block(&mut r, false))));
             c.run("scan W".into());
@@ -893,6 +905,16 @@ pub fn readonly_histories(seed: u64, n: usize, max_ops: u64, with_crash: bool) -
         c.run("pk W".into());
         c.run(format!("append W {}", hex(&gen_block(&mut r, false))));
         c.run("batch W 61,62".into());
+        // the same instance keeps working after make_read_only: clears that reach the periodic flush (every fourth
+        // mutation) write the header again — it must not bring the secret back
+        let k = r.below(7);
+        for _ in 0..k {
+            let len = c.sim.h["W"].oracle.len;
+            if len == 0 { break; }
+            let s0 = r.below(len);
+            c.run(format!("clear W {s0} {}", s0 + 1));
+        }
+        if k > 0 { *c.out.stats.entry("ro_then_same_instance_clears".into()).or_insert(0) += 1; c.run(format!("secretscan W {SEED_HEX}")); c.run("probe W".into()); }
         c.run("ro W".into());
         c.run("dump W".into());
         c.run("reopen W".into());
@@ -1175,6 +1197,21 @@ pub fn layout_histories(seed: u64, n: usize, max_ops: u64) -> RunOut {
             c.readfiles("W");
         }
         *c.out.stats.entry("interop_steps".into()).or_insert(0) += 5;
+        c.end_history();
+    }
+    // --- a core whose bitfield needs a second page (page i of the bitfield store lies at byte 4096 * i)
+    if seed % 4 == 1 {
+        c.run(format!("new W {SEED_HEX}"));
+        c.run("fill W 32766 3".into());
+        for b in ["61", "6262", "63", "64"] { c.run(format!("append W {b}")); }
+        c.readfiles("W");
+        c.run("clear W 32767 32769".into());
+        c.run("append W 65".into()); c.run("append W 66".into()); c.run("append W 67".into()); c.run("append W 68".into());
+        c.readfiles("W");
+        c.run("reopen W".into());
+        c.readfiles("W");
+        c.run("probe W".into());
+        *c.out.stats.entry("two_page_bitfield_cases".into()).or_insert(0) += 1;
         c.end_history();
     }
     // --- dumps at every operation boundary, read back by the layout reader
